@@ -21,11 +21,13 @@ RULE = ("polynomial and rational numeric conditions up to degree 3 over <= 4 flu
         "underscores, digits, incl. pairs that collide when punctuation is deleted), coefficients integer / short decimal / "
         "k +- 10^-5, all comparison operators, 0-2 linear equalities usable for elimination, decimal digits 0..6; witness "
         "valuations: for every fluent in which lhs-rhs is affine the exact boundary point and points at +-1e-3, +-1, +-10 "
-        "around it, plus grid points; for whole preconditions points on and off the solution manifold of the equalities; a "
+        "around it, plus grid points; for whole preconditions points on and off the solution manifold of the equalities, "
+        "comparisons that elimination reduces to constant ones (implied or contradictory), and the same condition sets joined "
+        "by `or` (no elimination or omission is sound there); a "
         "case = one condition (or precondition) x digits; distinct by input text + digits; non-trivial when at least one "
         "decisive comparison was made on each side of the boundary")
 DECISIVE = ["compared:meaning"]
-DECISIVE_EACH = ["compared:form", "compared:meaning", "compared:precondition"]
+DECISIVE_EACH = ["compared:form", "compared:meaning", "compared:precondition", "compared:disjunction"]
 ASSUMPTIONS = ["exact rational evaluation is the specification; an output numeral may deviate from the true coefficient by up to 2 units of the last requested digit (allowance K=4 half-units)",
                "sympy's own simplifications are part of the system under test"]
 SHARDS = {"quick": 16, "thorough": 16}
@@ -444,7 +446,7 @@ def run(ctx):
                                                                     simplify_equality)
     rng = ctx.rng("c13")
     thorough = ctx.tier == "thorough"
-    n = 1250 if thorough else 26
+    n = 1250 if thorough else 110
     for i in range(n):
         if not ctx.next_case():
             continue
@@ -460,7 +462,11 @@ def run(ctx):
         feats = {f"coef:{kind}", f"digits:{digits}", "rational" if rational else "polynomial", "names:" + ("lifted" if pool is LIFTED else "grounded"),
                  "api:" + which}
         try:
-            if which == "precondition":
+            if which == "precondition" and rng.random() < 0.3:
+                which = "disjunction"
+                feats.add("api:disjunction")
+                r = case_disjunction(ctx, rng, fl, kind, digits, feats)
+            elif which == "precondition":
                 r = case_precondition(ctx, rng, fl, kind, digits, feats)
             elif which == "expression":
                 r = case_expression(ctx, rng, fl, kind, rational, digits, simplify_complex_numeric_expression)
@@ -622,6 +628,109 @@ def exc_class(e):
 
 
 # ---- whole preconditions -------------------------------------------------------------------------------------
+def case_disjunction(ctx, rng, fl, kind, digits, feats):
+    """a precondition whose numeric conditions are joined by `or` (directly, or as the only child of the top-level `and`):
+    an equality may not be used to rewrite its sibling disjuncts and a disjunct that always holds may not be dropped"""
+    fl = LIFTED[:]
+    rng.shuffle(fl)
+    fl = fl[:rng.randint(2, 4)]
+    eqs, ineqs = [], []
+    for _ in range(rng.choice([0, 1, 1, 2])):
+        x = rng.choice(fl)
+        others = [f for f in fl if f != x]
+        if rng.random() < 0.15:
+            eqs.append((x, ["*", "-1", x], "0"))           # x + (-1 * x) = 0: always holds
+        else:
+            L = gen_poly(rng, others, kind if kind != "near" else "dec", max_deg=1, nterms=rng.randint(1, 2))
+            eqs.append((x, L, gen_coef(rng, "int")))
+    for _ in range(rng.randint(1, 2) if eqs else 2):
+        op = rng.choice(CMP)
+        lhs = gen_poly(rng, fl, kind, max_deg=rng.choice([1, 1, 2]))
+        rhs = gen_coef(rng, kind) if rng.random() < 0.65 else gen_poly(rng, fl, kind if kind != "near" else "dec", max_deg=1, nterms=1)
+        ineqs.append((op, lhs, rhs))
+    conds = [f"(= (+ {x} {pddl(L)}) {c})" for x, L, c in eqs] + [f"({op} {pddl(l)} {pddl(r)})" for op, l, r in ineqs]
+    rng.shuffle(conds)
+    fdecl = []
+    for f in LIFTED:
+        toks = sx.tokens(f)[1:-1]
+        fdecl.append("(" + " ".join([toks[0]] + [f"{p} - object" for p in toks[1:]]) + ")")
+    params = sorted({p for f in LIFTED for p in sx.tokens(f)[1:-1][1:]})
+    nested = rng.random() < 0.6
+    body = "(or " + " ".join(conds) + ")"
+    dtext = ("(define (domain simp) (:requirements :numeric-fluents) (:predicates (ok)) (:functions " + " ".join(fdecl) + ") "
+             "(:action a :parameters (" + " ".join(f"{p} - object" for p in params) + ") :precondition " +
+             (f"(and {body})" if nested else body) + " :effect (and (ok))))")
+    wit = {"api": "Precondition.print(should_simplify=True)", "disjunction_of": conds, "decimal_digits": digits,
+           "shape": "(and (or ...))" if nested else "(or ...)"}
+    feats.add(f"disjunction:equalities:{len(eqs)}")
+    try:
+        dom = lib.parse_domain_text(dtext)
+        out = dom.actions["a"].preconditions.print(should_simplify=True, decimal_digits=digits)
+    except BaseException as e:
+        ctx.count("compared:precondition")
+        ctx.violation("raises:" + exc_class(e), dict(wit, observed=lib.exc_name(e)))
+        return None
+    ctx.count("compared:form")
+    try:
+        t = sx.read(out)
+        while t[0] == "and" and len(t) == 2:
+            t = t[1]
+        if t[0] != "or":
+            raise FormError("printed precondition is not the disjunction it was")
+        got_conds = [read_condition(sx.plain(c), LIFTED) for c in t[1:]]
+    except (FormError, sx.ReadError) as e:
+        ctx.violation(f"form:{classify_form(str(e))}", dict(wit, output=out, problem=str(e)))
+        return None
+    exact = all(all_int(L) and all_int(c) for _, L, c in eqs) and all(all_int(l) and all_int(r) for _, l, r in ineqs)
+    h = Fraction(0) if exact else K * Fraction(1, 2) * Fraction(1, 10 ** digits)
+    allp = [expand_poly(["-", ["+", x, L], c]) for x, L, c in eqs] + [expand_poly(["-", l, r]) for _, l, r in ineqs]
+
+    def orig_truth(v):
+        return any(v[x] + ev(L, v) == Fraction(c) for x, L, c in eqs) or any(truth(op, ev(l, v) - ev(r, v)) for op, l, r in ineqs)
+
+    def out_disj(v):
+        slack = h * max(monomial_mass(p_, LIFTED, v) for p_ in allp)
+        res = [out_truth(c, v, h, slack) for c in got_conds]
+        if any(r is True for r in res):
+            return True
+        if all(r is False for r in res):
+            return False
+        return None
+
+    pts = [({f: rng.choice(GRID) for f in LIFTED}, "grid") for _ in range(10)]
+    for x, L, c in eqs:
+        for _ in range(3):
+            v = {f: rng.choice(GRID) for f in LIFTED}
+            if L != ["*", "-1", x]:
+                v[x] = Fraction(c) - ev(L, v)
+            pts.append((v, "on-an-equality"))
+    for op, l, r in ineqs:
+        for v, kindp in boundary_points(rng, lambda v_, l=l, r=r: ev(l, v_) - ev(r, v_), fl, n_base=2)[:20]:
+            pts.append(({**{f: Fraction(0) for f in LIFTED}, **v}, kindp))
+    sides = set()
+    for v, kindp in pts:
+        want = orig_truth(v)
+        got = out_disj(v)
+        if got is None:
+            if h > 0 and want and kindp == "on-an-equality":
+                ctx.count("equality_true_up_to_rounding")
+            else:
+                ctx.count("rounding_undecided")
+            continue
+        ctx.count("compared:precondition")
+        ctx.count("compared:meaning")
+        ctx.count("compared:disjunction")
+        sides.add(want)
+        if got is not want:
+            mech = "precondition:simplified-disjunction-differs" + ("[weaker-than-original]" if (got and not want) else "[disjunct-dropped-or-strengthened]")
+            ctx.violation(mech, dict(wit, output=out, valuation={k: str(x) for k, x in v.items() if k in fl}, original_truth=want,
+                                     output_truth=got, point_kind=kindp, allowance=str(h)))
+            return None
+    if ctx.case_index % 40 == 0:
+        ctx.sample(dict(wit, output=out))
+    return len(sides) == 2
+
+
 def case_precondition(ctx, rng, fl, kind, digits, feats):
     fl = [f for f in LIFTED if True][:]
     rng.shuffle(fl)
@@ -641,6 +750,20 @@ def case_precondition(ctx, rng, fl, kind, digits, feats):
         lhs = gen_poly(rng, fl, kind, max_deg=rng.choice([1, 2, 3]))
         rhs = gen_coef(rng, kind) if rng.random() < 0.65 else gen_poly(rng, fl, kind if kind != "near" else "dec", max_deg=1, nterms=rng.randint(1, 2))
         ineqs.append((op, lhs, rhs))
+    if rng.random() < 0.3:
+        # a comparison that elimination reduces to a constant one (k*(x+L) against k*c+delta, or 2f against f+f): it is
+        # implied (may be omitted), or contradictory (must survive in some unsatisfiable form), depending on op and delta
+        if eqs:
+            x, L, c = rng.choice(eqs)
+            k = rng.choice([1, 2, 3, -2])
+            delta = rng.choice([0, 0, 0, 1, -1])
+            lhs = ["+", x, L] if k == 1 else ["*", str(k), ["+", x, L]]
+            rhs = str(Fraction(c) * k + delta)
+        else:
+            f = rng.choice(fl)
+            lhs, rhs = ["*", "2", f], ["+", f, f]
+        ineqs.append((rng.choice(CMP), lhs, rhs))
+        feats.add("inequality-constant-after-elimination")
     conds = [f"(= (+ {x} {pddl(L)}) {c})" for x, L, c in eqs] + [f"({op} {pddl(l)} {pddl(r)})" for op, l, r in ineqs]
     rng.shuffle(conds)
     fdecl = []
